@@ -301,7 +301,14 @@ func (d *driver) runMsmCase(w emitter, k int, c *msmCase) {
 			} else {
 				var r *banderwagon.Element
 				res.SetIdentity()
-				r, err = res.MultiExp(pts, scs, banderwagon.MultiExpConfig{NbTasks: c.Tasks, ScalarsMont: c.Mont})
+				var g tailGuard
+				var ssent fr.Element
+				ssent.SetUint64(0xdecaf)
+				gp, gs := guardSlice(&g, pts, getConf().SRS[9]), guardSlice(&g, scs, ssent)
+				r, err = res.MultiExp(gp, gs, banderwagon.MultiExpConfig{NbTasks: c.Tasks, ScalarsMont: c.Mont})
+				copy(pts, gp)
+				copy(scs, gs)
+				e["tails_unchanged"] = g.ok()
 				if err == nil {
 					res = *r
 				}
